@@ -60,7 +60,7 @@ def run(ctx):
     cases, groups = [], []
     dist = {"depth": {}, "inner_bind": 0, "inner_select": 0, "renamed": 0, "rejected_nested": 0}
     tries = 0
-    while len(groups) < ctx.n(90, 1800) and tries < 20000:
+    while len(groups) < ctx.n(260, 1800) and tries < 20000:
         tries += 1
         g = gen.gen_dag(rng, max_nodes=7, edge_defaults=0.1, emits=0.0)
         try:
